@@ -34,7 +34,66 @@ const (
 	fSelTrailing = "C18-range-selector-trailing-step-lost"
 	fIgnKept     = "C18-ignoring-label-kept-in-result"
 	fFilterOff   = "C18-vector-comparison-filter-with-offset-operand-loses-elements"
+	fFilterNaN   = "C18-range-comparison-filter-keeps-nan"
 )
+
+// hasVectorScalarFilter: a comparison without bool between an instant vector and a scalar
+func hasVectorScalarFilter(expr string) bool {
+	e, err := parser.ParseExpr(expr)
+	if err != nil {
+		return false
+	}
+	found := false
+	parser.Inspect(e, func(n parser.Node, _ []parser.Node) error {
+		if b, ok := n.(*parser.BinaryExpr); ok && b.Op.IsComparisonOperator() && !b.ReturnBool &&
+			(b.LHS.Type() == parser.ValueTypeScalar) != (b.RHS.Type() == parser.ValueTypeScalar) {
+			found = true
+		}
+		return nil
+	})
+	return found
+}
+
+// nanExtraOnly: sv is up plus additional points whose value is NaN (at least one), nothing else differs
+func nanExtraOnly(up, sv result) bool {
+	if up.Kind != sv.Kind || sv.Err != "" {
+		return false
+	}
+	st := result{Kind: sv.Kind}
+	hit := false
+	for _, s := range sv.Series {
+		ns := rseries{Labels: s.Labels}
+		for _, p := range s.Pts {
+			if math.IsNaN(p.V) {
+				hit = true
+				continue
+			}
+			ns.Pts = append(ns.Pts, p)
+		}
+		if len(ns.Pts) > 0 {
+			st.Series = append(st.Series, ns)
+		}
+	}
+	if !hit {
+		return false
+	}
+	// upstream's own NaN points (none survive a comparison filter, but be exact) are compared as they are
+	ut := result{Kind: up.Kind}
+	for _, s := range up.Series {
+		ns := rseries{Labels: s.Labels}
+		for _, p := range s.Pts {
+			if !math.IsNaN(p.V) {
+				ns.Pts = append(ns.Pts, p)
+			}
+		}
+		if len(ns.Pts) > 0 {
+			ut.Series = append(ut.Series, ns)
+		}
+	}
+	st.canon()
+	ut.canon()
+	return cmpResults(ut, st) == ""
+}
 
 // filterWithOffsetOperand: the expression contains a comparison WITHOUT bool between two instant vectors one of whose
 // operands contains a selector with a non-zero offset
@@ -762,6 +821,21 @@ func rewriteCurrent(expr string, ds *dataset, choice int) (string, []string, int
 				continue
 			case m.Type == labels.MatchRegexp || m.Type == labels.MatchNotRegexp:
 				// regexp.Compile(value) without anchors
+				// a matcher whose readings all select the same stored series needs no reading of its own
+				effective := false
+				for vv := 1; vv <= 3 && !effective; vv++ {
+					if alt, err := labels.NewMatcher(m.Type, m.Name, regexVariant(vv, m.Value)); err == nil {
+						for _, ls := range sers {
+							if m.Matches(ls[m.Name]) != alt.Matches(ls[m.Name]) {
+								effective = true
+							}
+						}
+					}
+				}
+				if !effective {
+					kept = append(kept, m)
+					continue
+				}
 				idx, seen := distinct[m.String()]
 				if !seen {
 					idx = nregex
@@ -921,11 +995,11 @@ func explainDiff(ds *dataset, e *exprCase, mode string, start, lastStep, step in
 	// first pass: the tight rules under every reading of the regex matchers; second pass: the same readings with the
 	// looser shape rules (additional zero points of resets, trailing-point loss, superset / subset shapes) allowed on top
 	for _, loose := range []bool{false, true} {
-		for choice := 0; choice < nchoices && choice < 64; choice++ {
+		for choice := 0; choice < nchoices && choice < 256; choice++ {
 			ok, ex, nregex := explainWith(ds, e, mode, start, lastStep, step, sv, evalUp, choice, loose)
 			if !loose && choice == 0 {
 				first = ex
-				for k := 0; k < nregex && k < 3; k++ {
+				for k := 0; k < nregex && k < 4; k++ {
 					nchoices *= 4
 				}
 			}
@@ -1024,6 +1098,11 @@ func explainWith(ds *dataset, e *exprCase, mode string, start, lastStep, step in
 	}
 	if allowResets && filterWithOffsetOperand(e.Expr) && cmpResults(up, sv) != "" && subsetOf(up, sv) {
 		ex.Rules = addRule(ex.Rules, fFilterOff)
+		return true, ex, nregex
+	}
+	if hasVectorScalarFilter(e.Expr) && cmpResults(up, sv) != "" && nanExtraOnly(up, sv) {
+		// value <cmp> scalar is false for NaN: the element must go; today's range path keeps it
+		ex.Rules = addRule(ex.Rules, fFilterNaN)
 		return true, ex, nregex
 	}
 	if hasMinMaxAgg(e.Expr) && cmpResults(up, sv) != "" && sentinelInsteadOf(up, sv) {
